@@ -4,7 +4,7 @@ from ..expr import show
 from ..ledger import classify
 from .common import entry, variant_env, where, arm_handler
 from .hub_common import Roles, STATE, BATCH
-from .C03 import token_msgs, fo, signed_terms, RATE, POOLF, REQ
+from .C03 import token_msgs, fo, signed_terms, value_alts, RATE, POOLF, REQ
 from .msgs import wasm_execute
 
 
@@ -46,7 +46,7 @@ def run(prog, world, sem, rep):
         r = h.be.cfg.reach([0], stop={bb})
         ok = ok and bool(okret) and not any(b in r and b != bb for b in okret)
         rv = fo(world, wv, RATE["stsei"])
-        alts = rv.args if rv.op == "phi" else (rv,)
+        alts = value_alts(world, rv)
         fr = [a for a in alts if a.op == "call" and a.info.endswith("Decimal::from_ratio")]
         if len(fr) == 1:
             num, den = fr[0].args
